@@ -1,9 +1,9 @@
 package secmem
 
 import (
-	"errors"
 	"bufio"
 	"bytes"
+	"errors"
 	"fmt"
 	"math/rand"
 	"os"
